@@ -646,9 +646,7 @@ func (ndb *nodeDB) DeleteVersionsFrom(fromVersion int64) error {
 	}
 
 	// Delete the nodes for new format
-	if err = ndb.traverseRange(nodeKeyPrefixFormat.KeyInt64(fromVersion), nodeKeyPrefixFormat.KeyInt64(latest+1), func(k, _ []byte) error {
-		return ndb.batch.Delete(k)
-	}); err != nil {
+	if err = ndb.deleteRange(nodeKeyPrefixFormat.KeyInt64(fromVersion), nodeKeyPrefixFormat.KeyInt64(latest+1), ndb.batch.Delete); err != nil {
 		return err
 	}
 
@@ -664,6 +662,40 @@ func (ndb *nodeDB) DeleteVersionsFrom(fromVersion int64) error {
 	ndb.resetLatestVersion(dumpFromVersion - 1)
 
 	return nil
+}
+
+// deleteRange calls del for every key in [start, end). The keys are collected in chunks and
+// deleted once the iterator of the chunk is closed: the storage contract forbids writes within
+// the domain of an open iterator, and the batch may be flushed to the store by any Delete
+// (with MemDB that write blocks for ever behind the iterator's read lock).
+func (ndb *nodeDB) deleteRange(start, end []byte, del func(key []byte) error) error {
+	const chunkSize = 1024
+	for {
+		itr, err := ndb.db.Iterator(start, end)
+		if err != nil {
+			return err
+		}
+		keys := make([][]byte, 0, chunkSize)
+		for ; itr.Valid() && len(keys) < chunkSize; itr.Next() {
+			keys = append(keys, ibytes.Cp(itr.Key()))
+		}
+		err = itr.Error()
+		if cerr := itr.Close(); err == nil {
+			err = cerr
+		}
+		if err != nil {
+			return err
+		}
+		for _, k := range keys {
+			if err := del(k); err != nil {
+				return err
+			}
+		}
+		if len(keys) < chunkSize {
+			return nil
+		}
+		start = append(keys[len(keys)-1], 0)
+	}
 }
 
 // startPruning starts the pruning process.
